@@ -24,6 +24,8 @@ def gen_params(rng, kind, n, smooth_free=True, exp_hi=4.0):
         a_req = int(rng.integers(0, n + 1))
         kw["a"] = a_req
         a = max(2, a_req)
+        if rng.integers(0, 3) == 0:
+            kw["alpha"] = float(rng.choice([0.3, 0.77, 1.0]))      # documented: alpha is only used when a is not given
     else:
         if t == 1:
             alpha = 1.0
